@@ -32,11 +32,25 @@ func applyFeature(s *specs.Spec, f, loc int) {
 	}
 	c06Variant++ // unusual but legal spellings of each feature take turns with the usual ones
 	v := c06Variant % 3
+	// list elements that carry a feature stand alone, first, last or in the middle of elements that do not
+	before, after := (c06Variant/3)%4 >= 2, (c06Variant/3)%2 == 1
 	switch f {
 	case 0:
+		if before {
+			e.Mounts = append(e.Mounts, &specs.Mount{HostPath: "/h0", ContainerPath: "/c0"})
+		}
 		e.Mounts = append(e.Mounts, &specs.Mount{HostPath: "/h", ContainerPath: "/c", Type: []string{"bind", "x", " "}[v]})
+		if after {
+			e.Mounts = append(e.Mounts, &specs.Mount{HostPath: "/h1", ContainerPath: "/c1"})
+		}
 	case 1:
+		if before {
+			e.DeviceNodes = append(e.DeviceNodes, &specs.DeviceNode{Path: "/dev/w"})
+		}
 		e.DeviceNodes = append(e.DeviceNodes, &specs.DeviceNode{Path: "/dev/x", HostPath: []string{"/dev/y", "/dev/x", " "}[v]})
+		if after {
+			e.DeviceNodes = append(e.DeviceNodes, &specs.DeviceNode{Path: "/dev/z"})
+		}
 	case 2:
 		if loc >= 0 {
 			s.Devices[loc].Name = "0" + s.Devices[loc].Name
